@@ -1600,7 +1600,8 @@ class BaseDocWriter(object):
     def intOrFloat(self, num):
         if int(num) == num:
             return "%d" % num
-        return ("%f" % num).rstrip("0").rstrip(".")
+        text = ("%f" % num).rstrip("0").rstrip(".")
+        return "0" if text == "-0" else text
 
     def _addRule(self, ruleObject):
         ruleElement = ET.Element("rule")
